@@ -539,7 +539,7 @@ impl Property for C14 {
             Segment::random("BitVec", tier.pick(300_000, 6_400_000), &[0], 16, 80),
             Segment::random("BitFieldVec", tier.pick(450_000, 9_600_000), &[1], 16, 80),
             // the parallel bulk operations split their work only from 200000 words upward
-            Segment::enumerated("parallel-bulk-ops-over-large-dirty-storage", tier.pick(12, 72), &[0xF1]),
+            Segment::enumerated("parallel-bulk-ops-over-large-dirty-storage", tier.pick(16, 96), &[0xF1]),
         ]
     }
     fn rule(&self) -> &'static str {
@@ -572,6 +572,12 @@ impl Property for C14 {
 /// parallel code runs sequentially), over dirty storage: stale bits in the
 /// last word and spare trailing words.
 fn par_large_dirty_case(cx: &mut Ctx, j: u64) -> R {
+    let threads = [0usize, 1, 2, 3][(j / 2) as usize % 4];
+    cx.label(&format!("pool:{threads}"));
+    in_pool(cx, threads, |cx| par_large_dirty_inner(cx, j))
+}
+
+fn par_large_dirty_inner(cx: &mut Ctx, j: u64) -> R {
     let full = [200_000usize, 400_000, 200_001, 300_007, 1_000_000, 250_000][j as usize % 6];
     let residual = [37usize, 0, 63, 1, 0, 17][(j / 2) as usize % 6];
     let spare = [0usize, 3, 200_000, 1, 400_001, 0][(j / 3) as usize % 6];
